@@ -24,7 +24,7 @@ let () = iter_lines (fun line ->
      | [_; typ; p; me; ntop; nint; nbot; sorted; haspay; sz; eager; r; its] ->
        let z = z_of_hex in
        let pays = if haspay = "1" then Some (items its) else None in
-       let prog = notify_prog (z typ) (z p) (z me) (z ntop) (z nint) (z nbot) (sorted = "1") (pl_of_string r) pays (z sz) (eager = "1") in
+       let prog = notify_prog (nat_of_int (List.length evs + 2)) (z typ) (z p) (z me) (z ntop) (z nint) (z nbot) (sorted = "1") (pl_of_string r) pays (z sz) (eager = "1") in
        print_endline (try cosim prog evs with e -> "MISMATCH exception " ^ Printexc.to_string e)
      | _ -> print_endline "BAD_PARAMS")
   | _ -> print_endline "BAD")
